@@ -131,6 +131,12 @@ def prove_valid(name, hyps, goal, witness=None, nsamples=None, replay=None, time
             pt = pts[0]
             return Obl(name, 'refuted', 'exact-evaluation', time.time() - t0, goal=goal_text or short(goal, 200), cex=jval(pt), replay=replay,
                        cex_raw={str(k): str(v) for k, v in pt.items()})
+        # directed search: descend the goal's margin inside the hypotheses (violations confined to thin regions)
+        try: pt = alg.descend_search(syms, list(hyps), goal, seed=SEED, ranges=ranges, time_cap=25.0 if tier == 'quick' else 120.0)
+        except Exception: pt = None
+        if pt:
+            return Obl(name, 'refuted', 'exact-evaluation(descent)', time.time() - t0, goal=goal_text or short(goal, 200), cex=jval(pt), replay=replay,
+                       cex_raw={str(k): str(v) for k, v in pt.items()})
         if model is not None:      # confirmed by exact re-evaluation below (abstracted atoms are recomputed), otherwise discarded
             full = {s_: model.get(s_, sp.Integer(0)) for s_ in syms}
             try:
